@@ -18,8 +18,8 @@
    begin; then the executed work transitions form a work-only path, which the theorems bound. *)
 From Coq Require Import List Arith Bool.
 Import ListNotations.
-From Verif Require Import Blocking.
-From Verif Require BlockingProofs BlockingLiveProofs BlockingRefuteProofs.
+From Verif Require Import Blocking BlockingStall.
+From Verif Require BlockingProofs BlockingLiveProofs BlockingRefuteProofs BlockingStallProofs BlockingStallRefuteProofs.
 
 (* no deadlock, for every reachable state of every strict schedule: if a public call is pending,
    some work transition is enabled (and it is a transition of the code as written) *)
@@ -118,3 +118,80 @@ Theorem C38_needs_compactors :
   (forall l, work l = true -> step true cfg0 BlockingRefuteProofs.st_no_compactors l = None).
 Proof. exact BlockingRefuteProofs.needs_compactors. Qed.
 Print Assumptions C38_needs_compactors.
+
+(* ---- the level-0 stall loop (levels.go addLevel0Table) against "compactors stopped" ----
+   `stall_wait c s`: the flushMemtable goroutine, or DropPrefix flushing db.mt under db.lock, sits
+   in the stall loop (level 0 holds NumLevelZeroTablesStall tables); `compactors_run s`: no stop
+   has been signalled to the compactors and none has returned.  For EVERY schedule of the code as
+   written (strict or not, so including the schedules of F14/F29b/F31): *)
+
+(* whenever a thread waits in the stall loop, the compactors are running — there is no wait-for
+   edge from the stall loop to a thread that stopped the compactors and waits for that flush *)
+Theorem C38_stall_wait_has_running_compactors : forall strict c s, cfg_ok c -> reach strict c s ->
+  stall_wait c s = true -> compactors_run s = true.
+Proof. exact BlockingStallProofs.stall_has_compactors_reach. Qed.
+Print Assumptions C38_stall_wait_has_running_compactors.
+
+(* equivalently: from stopCompactions / Close's compactor stop until startCompactions (D_restart)
+   nobody is in the stall loop; DropAll (which stops the compactors first) never enters it: it
+   throws the memtables away instead of flushing them *)
+Theorem C38_compactors_stopped_no_stall_wait : forall strict c s, cfg_ok c -> reach strict c s ->
+  csig s = true -> stall_wait c s = false.
+Proof. exact BlockingStallProofs.stopped_no_stall. Qed.
+Print Assumptions C38_compactors_stopped_no_stall_wait.
+
+(* and the compactors alone end the wait: a path of compactor-only transitions (finish what runs,
+   worker 0 picks level 0, finish) leads to a state where level 0 is below the stall limit, the
+   waiter is where it was, and its own transition (F_add / D_flushmt) is enabled *)
+Theorem C38_stall_wait_resolves : forall strict c s, cfg_ok c -> reach strict c s -> crashed s = false ->
+  stall_wait c s = true ->
+  forallb compactor_lab (resolve_path s) = true /\
+  exists s', exec strict c s (resolve_path s) = Some s' /\ l0 s' < cS c /\
+    BlockingStallProofs.same_wait s s' /\
+    (fl s = FBuild -> step strict c s' F_add <> None) /\
+    (drop_stalled c s = true -> step strict c s' D_flushmt <> None).
+Proof. exact BlockingStallProofs.stall_resolves_reach. Qed.
+Print Assumptions C38_stall_wait_resolves.
+Example C38_stall_hyp_ex :
+  (exists s, exec true cfgW (init cfgW) (sched_l0_full ++ drop_to_view) = Some s /\
+             drp s = DFlushMt /\ l0 s = cS cfgW /\ mt s = MtSome /\
+             stall_wait cfgW s = true /\ compactors_run s = true /\ step true cfgW s D_flushmt = None /\
+             resolve_path s = [K0_startL0; K0_finishL0 1]) /\
+  (exists s, exec true cfgW (init cfgW) sched_coded_ok = Some s /\ pending s = false /\ r_drop s = 1 /\
+             compactors_run s = true).
+Proof. exact BlockingStallRefuteProofs.coded_order_ok. Qed.
+
+(* the order matters.  In the LTS that differs from the coded one ONLY in DropPrefix calling
+   stopCompactions before its memtable flush (BlockingStall.step_early), a strict schedule
+   reaches a state where DropPrefix sits in the stall loop of its own flush with every compactor
+   gone: no work transition is enabled, and on every continuation (any labels, any new calls)
+   DropPrefix is still there, writes stay blocked (ErrBlockedWrites) and the drop never returns *)
+Theorem C38_stop_before_flush_refuted :
+  reach_early true cfgW BlockingStallRefuteProofs.st_early_hang /\
+  BlockingStallRefuteProofs.early_stuck cfgW BlockingStallRefuteProofs.st_early_hang /\
+  clo BlockingStallRefuteProofs.st_early_hang = CNot /\ r_drop BlockingStallRefuteProofs.st_early_hang = 0 /\
+  (forall l, work l = true -> step_early true cfgW BlockingStallRefuteProofs.st_early_hang l = None) /\
+  (forall strict ls s', exec_early strict cfgW BlockingStallRefuteProofs.st_early_hang ls = Some s' ->
+     drp s' = DFlushMt /\ bw s' = true /\ r_drop s' = 0 /\
+     stall_wait cfgW s' = true /\ compactors_run s' = false /\ all_exited s' = true /\ pending s' = true).
+Proof. exact BlockingStallRefuteProofs.early_hang. Qed.
+Print Assumptions C38_stop_before_flush_refuted.
+
+(* so both statements fail for the reordered LTS *)
+Theorem C38_stop_before_flush_stall_refuted :
+  ~ (forall c s, cfg_ok c -> reach_early true c s -> stall_wait c s = true -> compactors_run s = true).
+Proof. exact BlockingStallRefuteProofs.early_stall_refuted. Qed.
+Print Assumptions C38_stop_before_flush_stall_refuted.
+
+Theorem C38_stop_before_flush_no_stuck_refuted :
+  ~ (forall c s, cfg_ok c -> reach_early true c s -> pending s = true ->
+       exists l s', work l = true /\ step_early true c s l = Some s').
+Proof. exact BlockingStallRefuteProofs.early_no_stuck_refuted. Qed.
+Print Assumptions C38_stop_before_flush_no_stuck_refuted.
+
+(* the reordered LTS is the coded one off DropPrefix's three re-targeted labels *)
+Theorem C38_reordered_lts_differs_only_in_dropprefix : forall strict c s l,
+  dkind s = false \/ (l <> D_view /\ l <> D_waitc /\ l <> D_flushmt) ->
+  step_early strict c s l = step strict c s l.
+Proof. exact BlockingStallRefuteProofs.step_early_same. Qed.
+Print Assumptions C38_reordered_lts_differs_only_in_dropprefix.
